@@ -292,9 +292,9 @@ def _filler_merge(repo, rep):
               "call=%s merge=%s" % (mo["call"], mo["upd"]))
 
 
-MACRO_CALL = ("_F(__stream, econtext.copy(), rcontext, __i18n_domain, "
+MACRO_CALL = ("_F(__stream, _C, rcontext, __i18n_domain, "
               "__i18n_context, target_language)")
-FILLER_CALL = "_F(__stream, econtext.copy(), rcontext)"
+FILLER_CALL = "_F(__stream, _C, rcontext)"
 
 
 def merge_after_macro(repo, name, call_pattern=MACRO_CALL):
@@ -306,11 +306,12 @@ def merge_after_macro(repo, name, call_pattern=MACRO_CALL):
     out = dict(func=f, call=None, upd=None, bare=False, top=False,
                filter_ok=False, detail="")
     snaps = {}
+    ci_, ck_ = L.scoped_call(ln, call_pattern)
+    if ci_ >= 0:
+        out["call"] = ci_
     for i, (it, conds, path) in enumerate(ln.rows):
         if not isinstance(it, A.Frag):
             continue
-        if L.frag_find(it, call_pattern, "expr"):
-            out["call"] = i
         for node, b in L.frag_find(it, "_S = rcontext.copy()"):
             if isinstance(b["_S"], ast.Name):
                 snaps[L.name_key(it, b["_S"])] = (
